@@ -12,7 +12,7 @@
 (* them); the writes include DROP + CREATE of a table.                         *)
 (***************************************************************************)
 EXTENDS Engine, Json
-CONSTANTS MaxDepth
+CONSTANTS MaxDepth, Fill
 VARIABLES st, hist, base
 vars == <<st, hist, base>>
 RECURSIVE Run(_,_)
@@ -34,7 +34,9 @@ Queries ==
      SetOp("union", TRUE, [BaseSel(T1) EXCEPT !.star = FALSE, !.sel = <<SelItem(Col("A"), "A")>>], SA2),
      BaseSel(TableRef("V1")),
      [BaseSel(T1) EXCEPT !.star = FALSE, !.sel = <<SelItem(Col("A"), "A"), SelItem(ScalarE([BaseSel(T2) EXCEPT !.star = FALSE, !.sel = <<SelItem(CountStar, "N")>>]), "N")>>] }
-CQ(q) == [a |-> "cq", q |-> q]
+\* Fill = 2: two readers that share the cache both missed on the query before either stored its result; both execute and
+\* both store (the second store replaces an entry with the same signature) before anything else happens
+CQ(q) == [a |-> "cq", q |-> q, fill |-> Fill]
 Writes == { InsertV("T1", << <<I(2), I(1)>> >>), InsertV("T2", << <<I(2), S("A")>> >>), InsertV("T2", << <<I(3), S("a")>> >>),
             UpdateA("T1", << [c |-> "B", e |-> L(5)] >>, NoExpr), UpdateA("T2", << [c |-> "C", e |-> LS("A")] >>, CmpE("=", Col("A"), L(1))),
             DeleteA("T2", NoExpr), DeleteA("T1", CmpE("=", Col("A"), L(1))), [a |-> "trunc", t |-> "T1"],
